@@ -306,6 +306,7 @@ SPEC = {
         "buffers / textures (ConstantBuffer, samplers, `.mips`, RayDesc), methods, templates (DispatchMesh), enums inside operators, sizeof, case labels that are not literals",
         "variables of the generated programs have unique names v<i>; a definition declares one variable; user function "
         "parameters are not arrays",
-        "signature parameter types carry no modifier (parse_function_signature strips them)",
+        "signature parameter types carry no modifier: strip_param_type is mirrored by ElabX.stripParamType (applied by the "
+        "driver to the declared parameter types of the extended requests; the old C03.prog requests declare none)",
     ],
 }
